@@ -41,7 +41,7 @@ def decl_order_lookup(use, fn):
     return False
 
 
-@rule("FIELD-ORDER", ["C14"], "named struct / variant sub-patterns are taken in declaration order by every traversal that compares, binds or deconstructs")
+@rule("FIELD-ORDER", ["C14", "C12"], "named struct / variant sub-patterns are taken in declaration order by every traversal that compares, binds or deconstructs")
 def field_order(ctx, r):
     n_sites = 0
     for file, names in ORDER_SENSITIVE.items():
